@@ -7,9 +7,9 @@
     A line such as `PASS<TAB>pw`, `PASS<NBSP>pw` or `<SP>PASS pw` is, for `parse_command`, a different
     (unknown) verb: it is echoed in clear by the command record and by the `502 '…' not implemented`
     reply on both sides.  That is noted here, not claimed.
-  * the password contains no line feed.  With one, `Client.login` itself puts several lines on the
-    wire and everything after the first LF is logged in clear by the server (`lf_password_leaks`,
-    a defect of the pinned tree).
+  * a password that contains CR or LF is refused by the client before anything is logged or sent
+    (`newline_password_logs_nothing`; on the pinned tree `Client.login` put several lines on the wire and the
+    server logged everything after the first LF in clear — repaired in /repo d8526e4, `old_lf_password_leaked`).
   * the line decodes in the server's encoding (a `UnicodeDecodeError` traceback names the offending
     byte and its position; not modelled).
   * what is revealed: the verb as typed, `len(password)` (client) and `len(password.rstrip())`
@@ -354,8 +354,25 @@ theorem clientCommand_pass_same {σ : Type} (env : Env σ) (w : Wire σ) (pw₁ 
   unfold clientCommand
   rw [client_noninterference pw₁ pw₂ hl, pass_command_step env w.st pw₁ pw₂ hn₁ hn₂ hr hauth]
 
+/-- the guard of `BaseClient.command` as the translator found it: CR and LF -/
+theorem client_rejects_newlines : Generated.clientCommandRejects = ['\r', '\n'] := by decide
+
+theorem not_rejected_no_lf (pre pw : Str) (h : clientRejects (pre ++ pw) = false) : '\n' ∉ pw := by
+  intro hm
+  have : clientRejects (pre ++ pw) = true := by
+    unfold clientRejects
+    rw [List.any_eq_true]
+    exact ⟨'\n', List.mem_append.2 (Or.inr hm), by rw [client_rejects_newlines]; decide⟩
+  rw [this] at h; cases h
+
+theorem rejected_of_lf (pw : Str) (h : '\n' ∈ pw) : clientRejects ("PASS ".toList ++ pw) = true := by
+  unfold clientRejects
+  rw [List.any_eq_true]
+  exact ⟨'\n', List.mem_append.2 (Or.inr h), by rw [client_rejects_newlines]; decide⟩
+
 theorem loginLoop_same {σ : Type} (env : Env σ) (pw₁ pw₂ account : Str)
-    (hn₁ : '\n' ∉ pw₁) (hn₂ : '\n' ∉ pw₂) (hl : pw₁.length = pw₂.length)
+    (hrej : clientRejects ("PASS ".toList ++ pw₁) = clientRejects ("PASS ".toList ++ pw₂))
+    (hl : pw₁.length = pw₂.length)
     (hr : (rstrip pw₁).length = (rstrip pw₂).length)
     (hU : ∀ u ∈ env.users, SameFor (rstrip pw₁) (rstrip pw₂) u) :
     ∀ (fuel : Nat) (w : Wire σ) (code : Str), StOK (rstrip pw₁) (rstrip pw₂) w.st →
@@ -366,63 +383,122 @@ theorem loginLoop_same {σ : Type} (env : Env σ) (pw₁ pw₂ account : Str)
   | succ n ih =>
     intro w code hw
     unfold loginLoop
-    rw [clientCommand_pass_same env w pw₁ pw₂ hn₁ hn₂ hl hr hw]
     split
     · rfl
     · split
       · rfl
       · split
-        · cases hc : clientCommand env w ("PASS ".toList ++ pw₂) (some 5) with
-          | none => rfl
-          | some r =>
-            exact ih r.1 r.2 (clientCommand_preserves env _ _ hU w r.1 _ _ r.2 hw hc)
-        · split
-          · cases hc : clientCommand env w ("ACCT ".toList ++ account) none with
+        · rw [← hrej]
+          cases hj : clientRejects ("PASS ".toList ++ pw₁) with
+          | true => rfl
+          | false =>
+            have hn₁ := not_rejected_no_lf _ _ hj
+            have hn₂ := not_rejected_no_lf _ _ (hrej ▸ hj)
+            simp only [Bool.false_eq_true, if_false]
+            rw [clientCommand_pass_same env w pw₁ pw₂ hn₁ hn₂ hl hr hw]
+            cases hc : clientCommand env w ("PASS ".toList ++ pw₂) (some 5) with
             | none => rfl
             | some r =>
               exact ih r.1 r.2 (clientCommand_preserves env _ _ hU w r.1 _ _ r.2 hw hc)
+        · split
+          · split
+            · rfl
+            · cases hc : clientCommand env w ("ACCT ".toList ++ account) none with
+              | none => rfl
+              | some r =>
+                exact ih r.1 r.2 (clientCommand_preserves env _ _ hU w r.1 _ _ r.2 hw hc)
           · rfl
 
-/-- **login_noninterference (both sides).**  `Client.login(user, pw)` run against the server: for
-    every environment, starting state, user name and account, two LF-free passwords of equal length,
-    of equal length after `rstrip()`, and accepted alike by every user of the table (and by the user
-    the connection starts with, if any) give the same client records AND the same server records —
-    "at most the length (with and without its blank tail) and the outcome are revealed". -/
+/-- **login_noninterference (both sides, every password).**  `Client.login(user, pw)` run against the server:
+    for every environment, starting state, user name and account, two passwords — ANY strings, newlines
+    included — of equal length, of equal length after `rstrip()`, accepted alike by every user of the table (and
+    by the user the connection starts with, if any) and refused alike by the client's newline guard give the
+    same client records AND the same server records — "at most the length (with and without its blank tail)
+    and the outcome are revealed". -/
 theorem login_noninterference {σ : Type} (env : Env σ) (st : LState σ) (user account pw₁ pw₂ : Str)
-    (fuel : Nat) (hn₁ : '\n' ∉ pw₁) (hn₂ : '\n' ∉ pw₂) (hl : pw₁.length = pw₂.length)
+    (fuel : Nat) (hrej : clientRejects ("PASS ".toList ++ pw₁) = clientRejects ("PASS ".toList ++ pw₂))
+    (hl : pw₁.length = pw₂.length)
     (hr : (rstrip pw₁).length = (rstrip pw₂).length)
     (hU : ∀ u ∈ env.users, SameFor (rstrip pw₁) (rstrip pw₂) u)
     (h0 : StOK (rstrip pw₁) (rstrip pw₂) st) :
     loginSession env st user pw₁ account fuel = loginSession env st user pw₂ account fuel := by
   unfold loginSession
-  cases hc : clientCommand env ⟨st, [], [], []⟩ ("USER ".toList ++ user) none with
-  | none => rfl
-  | some r =>
-    simp only
-    rw [loginLoop_same env pw₁ pw₂ account hn₁ hn₂ hl hr hU _ r.1 r.2
-      (clientCommand_preserves env _ _ hU ⟨st, [], [], []⟩ r.1 _ _ r.2 h0 hc)]
+  split
+  · rfl
+  · cases hc : clientCommand env ⟨st, [], [], []⟩ ("USER ".toList ++ user) none with
+    | none => rfl
+    | some r =>
+      simp only
+      rw [loginLoop_same env pw₁ pw₂ account hrej hl hr hU _ r.1 r.2
+        (clientCommand_preserves env _ _ hU ⟨st, [], [], []⟩ r.1 _ _ r.2 h0 hc)]
 
 /-- non-vacuity of `login_noninterference`: two different rejected passwords against `bob` -/
 example : loginSession bobEnv0 initState "bob".toList "wrong-1".toList [] 8 =
     loginSession bobEnv0 initState "bob".toList "WRONG 2".toList [] 8 :=
-  login_noninterference bobEnv0 initState _ _ _ _ 8 (by decide) (by decide) (by decide) (by decide)
+  login_noninterference bobEnv0 initState _ _ _ _ 8 (by decide) (by decide) (by decide)
     (by decide) (by intro u hu; simp [initState] at hu)
 
-/-! ### the defect: a password containing a line feed -/
+/-! ### a password containing a line feed (finding C20:lf-password, repaired in /repo d8526e4) -/
 
 def bobEnv : Env Unit := bobEnv0
 
-/-- `Client.login("bob", "ab\ncd")` vs `"ab\nce"`: same length, same length after rstrip, both
-    rejected — and the server's records differ: the tail after the LF is logged in clear
-    (`cd ` as a command echo and `502 'cd' not implemented`). -/
-theorem lf_password_leaks :
-    loginSession bobEnv initState "bob".toList "ab\ncd".toList [] 8 ≠
-      loginSession bobEnv initState "bob".toList "ab\nce".toList [] 8 := by decide
+theorem loginLoop_rejected {σ : Type} (env : Env σ) (account pw₁ pw₂ : Str)
+    (r₁ : clientRejects ("PASS ".toList ++ pw₁) = true) (r₂ : clientRejects ("PASS ".toList ++ pw₂) = true) :
+    ∀ (fuel : Nat) (w : Wire σ) (code : Str),
+      loginLoop env pw₁ account fuel w code = loginLoop env pw₂ account fuel w code := by
+  intro fuel
+  induction fuel with
+  | zero => intro w code; rfl
+  | succ n ih =>
+    intro w code
+    unfold loginLoop
+    simp only [r₁, r₂, if_true]
+    split
+    · rfl
+    · split
+      · rfl
+      · split
+        · rfl
+        · split
+          · split
+            · rfl
+            · cases clientCommand env w ("ACCT ".toList ++ account) none with
+              | none => rfl
+              | some r => exact ih r.1 r.2
+          · rfl
 
-theorem lf_password_leaks_records :
+/-- **newline_password_logs_nothing**: a password with a line feed never reaches `PASS`: whatever the rest of
+    the password is — its length included — the records of both sides are the same, those of the exchanges
+    that do not carry it.  (For every environment, state, user, account, fuel and any two such passwords.) -/
+theorem newline_password_logs_nothing {σ : Type} (env : Env σ) (st : LState σ) (user account pw₁ pw₂ : Str)
+    (fuel : Nat) (h₁ : '\n' ∈ pw₁) (h₂ : '\n' ∈ pw₂) :
+    loginSession env st user pw₁ account fuel = loginSession env st user pw₂ account fuel := by
+  have r₁ := rejected_of_lf pw₁ h₁
+  have r₂ := rejected_of_lf pw₂ h₂
+  unfold loginSession
+  split
+  · rfl
+  · cases hc : clientCommand env ⟨st, [], [], []⟩ ("USER ".toList ++ user) none with
+    | none => rfl
+    | some r =>
+      simp only
+      rw [loginLoop_rejected env account pw₁ pw₂ r₁ r₂]
+
+/-- the replay of the finding on the tree as it is now: `Client.login("bob", "ab\ncd")` and `"ab\nce"` leave the
+    same records, and they are the `USER` exchange only -/
+theorem lf_password_no_longer_leaks :
+    loginSession bobEnv initState "bob".toList "ab\ncd".toList [] 8 =
+      loginSession bobEnv initState "bob".toList "ab\nce".toList [] 8 ∧
     (loginSession bobEnv initState "bob".toList "ab\ncd".toList [] 8).map (·.2) =
-      some ["USER bob".toList, "331 password required".toList, "PASS **".toList,
-            "530 wrong password".toList, "cd ".toList, "502 'cd' not implemented".toList] := by decide
+      some ["USER bob".toList, "331 password required".toList] := by decide
+
+/-- **old_lf_password_leaked** (what the finding was): without the guard the line `PASS ab\ncd` reaches the
+    server as two lines, and the second is echoed in clear by the command record and by the 502 reply -/
+theorem old_lf_password_leaked :
+    (serverRun bobEnv ⟨some ⟨some "bob".toList, some "hunter2".toList⟩, false, ()⟩
+        (wireLines ("PASS ab\ncd".toList))).map (·.1) =
+      some ["PASS **".toList, "530 wrong password".toList, "cd ".toList, "502 'cd' not implemented".toList] := by
+  decide
 
 /-! ### every logging call site (generated; a new one breaks this) -/
 
